@@ -201,6 +201,50 @@ func lemmaIdentEndRange(s string, i int) bool {
 	return implies(0 <= i && i <= len(s), i <= identEnd(s, i) && identEnd(s, i) <= len(s))
 }
 
+// digitsEnd: end of the maximal run of decimal digits starting at i.
+func digitsEnd(s string, i int) int {
+	if i >= len(s) {
+		return len(s)
+	}
+	if specDigit(s[i]) {
+		return digitsEnd(s, i+1)
+	}
+	return i
+}
+
+//xvc:lemma induct=i measure=len(s)-i trigger=digitsEnd(s,i)
+func lemmaDigitsEndRange(s string, i int) bool {
+	return implies(0 <= i && i <= len(s), i <= digitsEnd(s, i) && digitsEnd(s, i) <= len(s))
+}
+
+// The decimal literal grammar of the lexer (ECMA-262 12.9.3 DecimalLiteral without the forms `1.` and `.5`): digits, then
+// a fraction only if the dot is followed by a digit -- the printers rely on this: `5.x` is the member x of the integer
+// 5 --, then an exponent part. An exponent marker without digits still belongs to the token (malformed literal).
+func hasFrac(s string, j int) bool { return byteAt(s, j) == '.' && specDigit(byteAt(s, j+1)) }
+func fracEnd(s string, j int) int {
+	if hasFrac(s, j) {
+		return digitsEnd(s, j+1)
+	}
+	return j
+}
+func hasExp(s string, k int) bool { return byteAt(s, k) == 'e' || byteAt(s, k) == 'E' }
+func expDigits(s string, k int) int {
+	if byteAt(s, k+1) == '+' || byteAt(s, k+1) == '-' {
+		return k + 2
+	}
+	return k + 1
+}
+func expEnd(s string, k int) int {
+	if hasExp(s, k) {
+		return digitsEnd(s, expDigits(s, k))
+	}
+	return k
+}
+func decimalEnd(s string, i int) int { return expEnd(s, fracEnd(s, digitsEnd(s, i))) }
+func isRadixPrefix(c byte) bool {
+	return c == 'x' || c == 'X' || c == 'b' || c == 'B' || c == 'o' || c == 'O'
+}
+
 func sameStrs(a []string, b []string) bool {
 	return len(a) == len(b) && forall(0, len(a), func(i int) bool { return a[i] == b[i] })
 }
@@ -405,10 +449,13 @@ func specStay(v int) bool {
 //@   ensures [maximal] l.position == identEnd(l.input, old(l.position))
 
 //@ func (l *Lexer) readNumber()
-//@   props C10 C11 C07
+//@   props C10 C11 C07 C03 C01
 //@   requires lexInv(l) && l.position < len(l.input) && specDigit(l.CurrentChar)
 //@   modifies l.position, l.readPosition, l.CurrentChar, l.Line, l.Column
 //@   loop 1 invariant [cursor] lexInv(l) && old(l.position) <= l.position && position == old(l.position) && (l.position > old(l.position) || specDigit(l.CurrentChar))
+//@   loop 1 invariant [run] digitsEnd(l.input, l.position) == digitsEnd(l.input, old(l.position)) && tokenType == token.INT
+//@   loop 2 invariant [run] digitsEnd(l.input, l.position) == digitsEnd(l.input, digitsEnd(l.input, old(l.position))+1) && hasFrac(l.input, digitsEnd(l.input, old(l.position))) && tokenType == token.FLOAT
+//@   loop 3 invariant [run] hasExp(l.input, fracEnd(l.input, digitsEnd(l.input, old(l.position)))) && digitsEnd(l.input, l.position) == decimalEnd(l.input, old(l.position)) && tokenType == token.FLOAT
 //@   loop 1 decreases len(l.input) - l.position
 //@   loop 2 invariant [cursor] lexInv(l) && old(l.position) < l.position && position == old(l.position)
 //@   loop 2 decreases len(l.input) - l.position
@@ -418,6 +465,7 @@ func specStay(v int) bool {
 //@   ensures [progress] l.position > old(l.position)
 //@   ensures [slice] result0 == l.input[old(l.position):l.position]
 //@   ensures [type] result1 == token.INT || result1 == token.FLOAT
+//@   ensures [grammar@C10,C03,C07,C01] implies(!(old(l.CurrentChar) == '0' && isRadixPrefix(byteAt(l.input, old(l.position)+1))), l.position == decimalEnd(l.input, old(l.position)) && (result1 == token.FLOAT) == (hasFrac(l.input, digitsEnd(l.input, old(l.position))) || hasExp(l.input, fracEnd(l.input, digitsEnd(l.input, old(l.position))))))
 
 //@ func (l *Lexer) readHexNumber()
 //@   props C10 C11 C07
